@@ -5,7 +5,11 @@ CONSTANTS
   MaxLen = 5
   RVals <- RValsT
   Gammas <- GammasQ
+  PadMax = 2
 INVARIANT ReturnIsRecurrence
 INVARIANT ClosedFormIsRecurrence
+INVARIANT ConcatLemma
+INVARIANT EmbedLemma
+INVARIANT SuperposeLemma
 INVARIANT Export
 CHECK_DEADLOCK FALSE
